@@ -302,6 +302,8 @@ def _name_loss(v, root):
         if e[0] in NAME_LOSING:
             return f"the array is {NAME_LOSING[e[0]]} on its way ({'.'.join(str(x[0]) for x in v.eff)})"
         if e[0] == "rename" and len(e) > 1 and e[1] and not isinstance(e[1][0], dict):
+            if v.attrs.get("name") is not None and e[1][0] == v.attrs.get("name") or e[1][0] == Sym("name_of_" + root):
+                continue  # renamed to its own name
             return f"the array is renamed to {e[1][0]!r}"
     return None
 
@@ -355,6 +357,26 @@ def _name_lineage(ctx, P):
                 ctx.ok("R19.5", inst, "the padded arrays themselves, re-chunked")
     except Unmodelled as e:
         ctx.unknown("R19.5", inst, str(e))
+    # the 1-D dispatch (diff / interp / min / max), for a plain array and for a vector component given as {axis: component}
+    from ..harness import run_dispatch
+
+    dfi = P.func("grid:Grid._1d_grid_ufunc_dispatch")
+    for as_vec in (False, True):
+        inst = f"dispatch: lineage of the result, {'vector component' if as_vec else 'plain array'} input"
+        try:
+            outs = run_dispatch(P, "interp", {"AX": "left"} if as_vec else {"AX": "center"}, "center" if as_vec else "left", data_as_vector=as_vec,
+                                dims=[Sym("t"), dimsym("AX", "left" if as_vec else "center")])
+        except Unmodelled as e:
+            ctx.unknown("R19.5", inst, str(e))
+            continue
+        bad = None
+        for o in outs:
+            if o.kind == "return":
+                bad = bad or _name_loss(o.value, "da")
+        if bad:
+            ctx.report("R19.5", dfi, inst, bad + ": the input's name is lost")
+        else:
+            ctx.ok("R19.5", inst, "the caller's array, carried through the per-axis ufunc and DataArray methods only")
     cfi = P.func("grid:Grid.cumsum")
     for fr, to in (("center", "outer"), ("center", "left"), ("left", "center"), ("outer", "center")):
         inst = f"cumsum {fr}->{to}: lineage of the result"
